@@ -99,6 +99,13 @@ def B(hint):
     return C.fresh('Bool', None, hint)
 
 
+def assume(*terms):
+    """global assumption of the current session (always use this, never a stale `C` imported elsewhere)"""
+    for t in terms:
+        if t is not True:
+            C.pre.append(t)
+
+
 def AND(*a):
     a = [x for x in a if x is not True]
     if any(x is False for x in a):
